@@ -94,6 +94,27 @@ def inputs_for(plan, idx, tier, rng):
 
 SRF_FLUSHABLE = ("stream", "raw2", "block")
 
+def padding_jobs(plans):
+    """Index Padding of 2 and 3 bytes through every multi-call producer of an Index (easy, stream, threaded stream
+    encoder, lzma_index_encoder), with one-byte output grants and with a grant ending after each padding byte.
+    Record sizes decide the padding: 1 + vli(count) + vli sizes = 6 -> 2 bytes (1000 random bytes: both sizes take two
+    VLI bytes; also the empty Index), = 5 -> 3 bytes (200 equal bytes: Unpadded Size < 128)."""
+    jobs = []
+    for entry in ("easy", "stream", "stream_mt", "index_enc"):
+        src = "block_buffer" if entry == "index_enc" else entry
+        cand = [p for p in plans if p["entry"] == src and not p.get("mtpreset")] or [p for p in plans if p["entry"] == src]
+        if not cand:
+            continue
+        q = dict(cand[0], entry=entry, chain="lzma2", flush="none", update="none", history="fresh", pdict="no", bsize=0,
+                 dict="65536" if entry != "easy" else cand[0].get("dict"))
+        for pad, kind, n in ((2, "rand", 1000), (3, "equal", 200), (2, "text", 0)):
+            if n == 0 and entry == "index_enc":
+                continue
+            jobs.append((dict(q, oslice="ones"), dict(kind=kind, n=n, tag="index-padding", pad=pad)))
+            for j in range(1, pad):
+                jobs.append((dict(q, oslice="whole"), dict(kind=kind, n=n, tag="index-padding", pad=pad, padcut=j)))
+    return jobs
+
 def srf_jobs(plans, tier, rng, per_plan):
     """Chunk-boundary adversary (EncWindow!UncompressedFits).  Input S|R|F (encrun.gen_input 'srf') with LZMA_SYNC_FLUSH
     after S, so the chunk under test starts at R; the start of the look-ahead run F is swept over every offset where an
@@ -148,6 +169,23 @@ def run_case(job):
             data = E.splice_preset(data, pd, dsz, rng)
         R = E.encode(plan, data, bias=0, seed=job["seed"])
         res["encs"] += 1
+        if inp.get("padcut"):
+            # second pass: an output grant that ends after `padcut` bytes of Index Padding (offsets from the first pass)
+            from harness.glue import xz as gxz
+            P0 = gxz.parse(R.out, collect=None)
+            pe = [(o, ln) for nm, o, ln, v in P0.events if nm.endswith("index.padding")]
+            ie = [o for nm, o, ln, v in P0.events if nm.endswith("index.indicator")]
+            if not pe or pe[0][1] != inp["pad"] or inp["padcut"] >= pe[0][1]:
+                raise RuntimeError("Index Padding of %r is %r, wanted %d bytes" % (inp, pe, inp["pad"]))
+            base = ie[0] if plan["entry"] == "index_enc" else 0
+            R = E.encode(dict(plan, ogrants=[pe[0][0] - base + inp["padcut"]]), data, bias=0, seed=job["seed"])
+            res["encs"] += 1
+        elif inp.get("pad") is not None:
+            from harness.glue import xz as gxz
+            P0 = gxz.parse(R.out, collect=None)
+            pe = [ln for nm, o, ln, v in P0.events if nm.endswith("index.padding")]
+            if not pe or pe[0] != inp["pad"]:
+                raise RuntimeError("Index Padding of %r is %r, wanted %d bytes" % (inp, pe, inp["pad"]))
         res["enclen"] = len(R.out); res["consumed"] = R.consumed; res["kind"] = R.kind
         libret, libout = E.lib_decode(R)
         ex = E.lz_executions(R, libret, libout, mode=job.get("mode"))
